@@ -28,17 +28,25 @@ def gen_bfs(cfgname, max_ops, workers=6):
     return uni, cases, g["stats"]
 
 
-def gen_walks(cfgname, num, seed):
+def gen_walks(cfgname, num, seed, motif=None):
+    """-simulate walks; with motif: only walks of that motif (one TLC run per motif, so that every motif the property
+    names is present whatever the seed)"""
     c = open(os.path.join(vlib.SPEC, cfgname)).read()
     depth = int(re.search(r"MaxOps = (\d+)", c).group(1))
-    g = vlib.tlc_emit("MC_BTreeMap.tla", os.path.join(vlib.SPEC, cfgname), timeout=2400, workers=1,
+    cfg = os.path.join(vlib.SPEC, cfgname)
+    if motif:
+        cfg = vlib.scratch() + "/%s.%s.cfg" % (cfgname, motif)
+        open(cfg, "w").write(re.sub(r"Motifs = \{[^}]*\}", 'Motifs = {"%s"}' % motif, c))
+    g = vlib.tlc_emit("MC_BTreeMap.tla", cfg, timeout=2400, workers=1,
                       simulate="num=%d" % num, seed=seed, extra=["-depth", str(depth + 1)])
     uni, walks = _split(g["emitted"])
-    if len(walks) < max(1, num - 1):
-        raise vlib.ToolError("TLC produced %d of %d walks (%s)" % (len(walks), num, cfgname))
+    if len(walks) != num:
+        raise vlib.ToolError("TLC produced %d of %d walks (%s %s)" % (len(walks), num, cfgname, motif))
     for w in walks:
         if len(w["steps"]) != depth:
             raise vlib.ToolError("a walk has %d steps instead of %d" % (len(w["steps"]), depth))
+        if motif and w["w"] != motif:
+            raise vlib.ToolError("walk of motif %s in a run for %s" % (w["w"], motif))
     return uni, walks
 
 
@@ -171,7 +179,8 @@ def pipeline(chk, want_shape_tlc):
     groups = []   # (tag, universe, cases)
     gstats = {}
     # --- all generators run concurrently (TLC is the slow part)
-    walks_cfg = [("u40", "Gen_BTreeMap_walk40.cfg", 24 if thorough else 6), ("u20", "Gen_BTreeMap_walk20.cfg", 16 if thorough else 4)]
+    walks_cfg = [("u40", "Gen_BTreeMap_walk40.cfg", {"sorted": 6, "reverse": 6, "random": 6, "eqprefix": 6} if thorough else {"sorted": 1, "reverse": 1, "random": 2, "eqprefix": 2}),
+                 ("u20", "Gen_BTreeMap_walk20.cfg", {"deep": 6, "reverse": 5, "random": 5} if thorough else {"deep": 2, "reverse": 1, "random": 1})]
     got = {}
 
     def job(name, f, *a, **kw):
@@ -184,7 +193,7 @@ def pipeline(chk, want_shape_tlc):
         return t
     ths = [job("bfs", gen_bfs, "Gen_BTreeMap_bfs.cfg", 3 if thorough else 2, workers=6),
            job("big", gen_bfs, "Gen_BTreeMap_big.cfg", 4, workers=2)]
-    ths += [job(tag, gen_walks, cfg, num, chk.seed) for tag, cfg, num in walks_cfg]
+    ths += [job(tag + ":" + mo, gen_walks, cfg, n, chk.seed, mo) for tag, cfg, motifs in walks_cfg for mo, n in motifs.items()]
     [t.join() for t in ths]
     for k, v in got.items():
         if isinstance(v, Exception):
@@ -208,8 +217,9 @@ def pipeline(chk, want_shape_tlc):
         c["hint"] = HINTS[i % 3]; c["store"] = "mem"; c["dump"] = "last" if i % (4 if thorough else 20) == 0 else "none"
     groups.append(("ubig", unib, big))
     # --- walks, each under the three hint modes
-    for tag, cfg, num in walks_cfg:
-        uni, walks = got[tag]
+    for tag, cfg, motifs in walks_cfg:
+        uni = got[tag + ":" + next(iter(motifs))][0]
+        walks = [w for mo in motifs for w in got[tag + ":" + mo][1]]
         cs = []
         for wi, w in enumerate(walks):
             for hi, h in enumerate(HINTS):
